@@ -1,8 +1,11 @@
 (* C07 — property theorems only. Each is closed by [exact]/[apply] of a lemma from Proofs*.v and
-   followed by Print Assumptions. The item codec (fxamacker CBOR on transactions / receipts / their
-   projections) is a hypothesis that appears in the statements: dec (enc x) = Some x. *)
+   followed by Print Assumptions. In the first part the item codec (fxamacker CBOR on transactions /
+   receipts / their projections) is a hypothesis that appears in the statements: dec (enc x) = Some x.
+   The last part (theorems named C07_cbor_...) models the codec itself (Cbor.v) and discharges that hypothesis for the
+   value shapes of Shapes.v. *)
 From Coq Require Import List NArith ZArith Bool String Lia.
 From V Require Import C07.Model C07.Proofs C07.Proofs_Keys C07.Proofs_Proj Gen.C07_Layouts.
+From V Require Import C07.Proofs_cbor C07.Proofs_cbor_ty C07.Proofs_cbor_inst.
 Import ListNotations.
 Open Scope string_scope.
 Open Scope N_scope.
@@ -282,3 +285,154 @@ Example projection_needed :
   decode_struct N N dec proj1 m <> option_map (project N proj1) (decode_struct N N dec full m) /\
   decode_struct N N dec proj2 m <> option_map (project N proj2) (decode_struct N N dec full m).
 Proof. vm_compute. repeat split; try reflexivity; intro H; discriminate H. Qed.
+
+
+(* ====================== the CBOR codec itself (Cbor.v) ====================== *)
+
+(* decoding the canonical encoding of any item within the decoder's limits (arguments below 2^64,
+   arrays / maps not longer than MaxArrayElements / MaxMapPairs, nesting not deeper than
+   MaxNestedLevels) gives the item back and leaves exactly the bytes that followed it *)
+Theorem C07_cbor_roundtrip : forall x rest, wf_item x = true ->
+  decode (encode x ++ rest) = Some (x, rest).
+Proof. exact decode_encode. Qed.
+Print Assumptions C07_cbor_roundtrip.
+
+(* encode is injective, even prefix-free: concatenated items (the blob's data section) split uniquely *)
+Theorem C07_cbor_encode_injective : forall x y r1 r2, wf_item x = true -> wf_item y = true ->
+  encode x ++ r1 = encode y ++ r2 -> x = y /\ r1 = r2.
+Proof. exact encode_prefix_free. Qed.
+Print Assumptions C07_cbor_encode_injective.
+
+(* at the limits: an array / map one longer than the configured limit (or any longer one) is rejected
+   whatever it contains ... *)
+Theorem C07_cbor_array_limit : forall l rest, llen l < 2 ^ 64 -> max_array_elements < llen l ->
+  decode (encode (IArr l) ++ rest) = None.
+Proof. intros. apply dec_item_array_over; assumption. Qed.
+Print Assumptions C07_cbor_array_limit.
+
+Theorem C07_cbor_map_limit : forall l rest, llen l < 2 ^ 64 -> max_map_pairs < llen l ->
+  decode (encode (IMap l) ++ rest) = None.
+Proof. intros. apply dec_item_map_over; assumption. Qed.
+Print Assumptions C07_cbor_map_limit.
+
+(* ... and so is anything below more than MaxNestedLevels arrays, while exactly at the limit it is read *)
+Theorem C07_cbor_nesting_limit : forall k x rest,
+  (max_nested_levels < N.of_nat k -> decode (encode (nest k x) ++ rest) = None) /\
+  (item_ok x = true -> N.of_nat k + ht x <= max_nested_levels ->
+   decode (encode (nest k x) ++ rest) = Some (nest k x, rest)).
+Proof.
+  intros. split; intros.
+  - apply dec_item_too_deep; lia.
+  - apply decode_encode. unfold wf_item. rewrite item_ok_nest by assumption. rewrite ht_nest.
+    apply N.leb_le. assumption.
+Qed.
+Print Assumptions C07_cbor_nesting_limit.
+
+(* encoder.Unmarshal (encoder.Marshal v) = v for every Go value shape the typed layer covers (structs
+   with sorted keys and omitempty, nil-able pointers / slices / maps / byte slices, felts, byte arrays,
+   opaque BinaryMarshalers, interface values behind registry tags) and every value of that shape:
+   NO hypothesis about the codec is left *)
+Theorem C07_cbor_value_roundtrip : forall t v rest, shape_ok t = true -> has_type t v = true ->
+  unmarshal t (marshal t v) = Some v /\ unmarshal_first t (marshal t v ++ rest) = Some (v, rest).
+Proof. intros. split; [apply unmarshal_marshal|apply unmarshal_first_marshal]; assumption. Qed.
+Print Assumptions C07_cbor_value_roundtrip.
+
+Theorem C07_cbor_marshal_injective : forall t v w, shape_ok t = true -> has_type t v = true ->
+  has_type t w = true -> marshal t v = marshal t w -> v = w.
+Proof. exact marshal_injective. Qed.
+Print Assumptions C07_cbor_marshal_injective.
+
+(* the shapes of Shapes.v (Header, the five transactions and the Transaction interface, receipt with
+   events / resources / messages, StateUpdate / StateDiff) are covered ... *)
+Theorem C07_cbor_shapes_ok : forallb (fun p => shape_ok (snd p)) shapes = true.
+Proof. vm_compute. reflexivity. Qed.
+Print Assumptions C07_cbor_shapes_ok.
+
+(* ... and are the shapes the regenerated layout table records: same wire keys in the same order,
+   same pointer-ness and kind for every field of every full struct *)
+Theorem C07_cbor_shapes_match_layouts : shapes_match_layouts fulls = true.
+Proof. vm_compute. reflexivity. Qed.
+Print Assumptions C07_cbor_shapes_match_layouts.
+
+Theorem C07_cbor_stored_values_roundtrip : forall v,
+  (has_type S_Header v = true -> unmarshal S_Header (marshal S_Header v) = Some v) /\
+  (has_type S_Transaction v = true -> unmarshal S_Transaction (marshal S_Transaction v) = Some v) /\
+  (has_type S_TransactionReceipt v = true -> unmarshal S_TransactionReceipt (marshal S_TransactionReceipt v) = Some v) /\
+  (has_type S_StateUpdate v = true -> unmarshal S_StateUpdate (marshal S_StateUpdate v) = Some v).
+Proof.
+  intros v. repeat split; intros H; apply unmarshal_marshal; try assumption;
+    eapply shape_in_ok; unfold shapes; simpl; eauto 20.
+Qed.
+Print Assumptions C07_cbor_stored_values_roundtrip.
+
+(* the indexed blob with the modelled codec as item codec: C07_get_build / C07_all_build without the
+   codec hypothesis, for stored values of the stated shapes *)
+Theorem C07_cbor_get_build : forall tT tR, shape_ok tT = true -> shape_ok tR = true ->
+  forall (txs rcs : list val) (i : nat),
+  (forall x, nth_error txs i = Some x -> has_type tT x = true ->
+     get_tx (unmarshal tT) (build (marshal tT) (marshal tR) txs rcs) (Z.of_nat i) = Ok x) /\
+  (forall r, nth_error rcs i = Some r -> has_type tR r = true ->
+     get_rc (unmarshal tR) (build (marshal tT) (marshal tR) txs rcs) (Z.of_nat i) = Ok r).
+Proof. exact cbor_get_build. Qed.
+Print Assumptions C07_cbor_get_build.
+
+Theorem C07_cbor_all_build : forall tT tR, shape_ok tT = true -> shape_ok tR = true ->
+  forall (txs rcs : list val),
+  Forall (fun x => has_type tT x = true) txs -> Forall (fun r => has_type tR r = true) rcs ->
+  all_txs (unmarshal tT) (build (marshal tT) (marshal tR) txs rcs) = Ok txs /\
+  all_rcs (unmarshal tR) (build (marshal tT) (marshal tR) txs rcs) = Ok rcs.
+Proof. exact cbor_all_build. Qed.
+Print Assumptions C07_cbor_all_build.
+
+(* a block's transactions and receipts as juno stores them: interface values behind registry tags and
+   receipts, read back at every position *)
+Theorem C07_cbor_block_transactions : forall (txs rcs : list val) (i : nat),
+  (forall x, nth_error txs i = Some x -> has_type S_Transaction x = true ->
+     get_tx (unmarshal S_Transaction) (build (marshal S_Transaction) (marshal S_TransactionReceipt) txs rcs) (Z.of_nat i) = Ok x) /\
+  (forall r, nth_error rcs i = Some r -> has_type S_TransactionReceipt r = true ->
+     get_rc (unmarshal S_TransactionReceipt) (build (marshal S_Transaction) (marshal S_TransactionReceipt) txs rcs) (Z.of_nat i) = Ok r).
+Proof.
+  apply cbor_get_build; eapply shape_in_ok; unfold shapes; simpl; eauto 20.
+Qed.
+Print Assumptions C07_cbor_block_transactions.
+
+(* ---------- non-vacuity and witnesses ---------- *)
+(* byte-exact: core.GasPrice{} (fields sorted: PriceInFri before PriceInWei), a felt with limbs of every
+   width, a nil interface, an L1-handler transaction behind tag 65539 *)
+Example cbor_concrete :
+  marshal S_GasPrice (VStruct [VNil; VNil]) =
+    [162; 106; 80; 114; 105; 99; 101; 73; 110; 70; 114; 105; 246; 106; 80; 114; 105; 99; 101; 73; 110; 87; 101; 105; 246] /\
+  marshal TFelt (VFelt 1 300 70000 1099511627776) =
+    [132; 1; 25; 1; 44; 26; 0; 1; 17; 112; 27; 0; 0; 1; 0; 0; 0; 0; 0] /\
+  marshal S_Transaction VNil = [246] /\
+  firstn 6 (marshal S_Transaction (VIface 65539 (VStruct [VNil; VNil; VNil; VNil; VNil; VNil]))) = [218; 0; 1; 0; 3; 166] /\
+  has_type S_Transaction (VIface 65539 (VStruct [VNil; VNil; VNil; VNil; VNil; VNil])) = true /\
+  unmarshal S_GasPrice [162; 106; 80; 114; 105; 99; 101; 73; 110; 70; 114; 105; 246; 106; 80; 114; 105; 99; 101; 73; 110; 87; 101; 105; 246]
+    = Some (VStruct [VNil; VNil]).
+Proof. vm_compute. repeat split; reflexivity. Qed.
+
+(* the strict decoder: non-canonical heads, indefinite lengths, floats, truncated input are rejected;
+   33 nested arrays are rejected, 32 are read *)
+Example cbor_rejects :
+  decode [24; 5] = None /\ decode [25; 0; 5] = None /\ decode [159; 1; 255] = None /\
+  decode [249; 60; 0] = None /\ decode [130; 1] = None /\ decode [] = None /\
+  decode (encode (nest 33 (IUInt 0))) = None /\
+  decode (encode (nest 32 (IUInt 0))) = Some (nest 32 (IUInt 0), []) /\
+  decode [1; 2] = Some (IUInt 1, [2]) /\ decode_all [1; 2] = None.
+Proof. vm_compute. repeat split; reflexivity. Qed.
+
+(* has_type's exclusion of an empty non-nil container in an omitempty field is not decorative: the
+   field is left out and reads back nil (InvokeTransaction.ProofFacts, see findings) *)
+Example cbor_omitempty_needed :
+  let t := TStruct [(FText [80], true, TSlice TFelt)] in
+  has_type t (VStruct [VList []]) = false /\
+  unmarshal t (marshal t (VStruct [VList []])) = Some (VStruct [VNil]) /\
+  unmarshal t (marshal t (VStruct [VNil])) = Some (VStruct [VNil]).
+Proof. vm_compute. repeat split; reflexivity. Qed.
+
+(* a pointer to a nil-able kind would be ambiguous (nil pointer and pointer to nil both null):
+   ty_ok refuses it, and the round trip really fails there *)
+Example cbor_ptr_needed :
+  ty_ok (TPtr (TSlice TFelt)) = false /\
+  to_item (TPtr (TSlice TFelt)) VNil = INull /\ to_item (TSlice TFelt) VNil = INull.
+Proof. vm_compute. repeat split; reflexivity. Qed.
